@@ -13,8 +13,9 @@ Definition Inv (s : st) : Prop :=
     (pw s = WConn -> wadded s = true /\ mout s = true /\ owed s = 0 /\ dial s = false) /\
     (0 < q s -> wadded s = true) /\
     match md with
-    | ETOS => q s = 0 -> wadded s = true -> dial s = true \/ pw s = WConn
-    | _ => reg s = true -> wadded s = true -> mout s = true
+    | LT => reg s = true -> mout s = wadded s
+    | ET => True
+    | ETOS => (reg s = true -> mout s = wadded s) /\ (q s = 0 -> wadded s = true -> dial s = true \/ pw s = WConn)
     end /\
     (reg s = true -> 0 < q s ->
        mout s = true /\
@@ -120,3 +121,26 @@ Ltac go :=
   unfold_all; simp_proj; pre_rw; cbn [orb andb negb]; split_ifs; simp_proj_all; boolprop;
   try (left; reflexivity);
   right; simp_proj; (repeat split; intros; fin).
+
+Ltac start' :=
+  intros [Hc | (Hc & HA & HB & H1 & H5 & H2 & H3 & H4 & H6 & H8 & H7)].
+
+(* like go, for a goal in which the step has already been unfolded as far as wanted *)
+Ltac go2 :=
+  simp_proj; pre_rw; cbn [orb andb negb]; split_ifs; simp_proj_all; boolprop;
+  try (left; reflexivity);
+  right; simp_proj; (repeat split; intros; fin).
+
+(* goals of the form (0 <? q s) = wadded s (ResetPollerEvent sets the mask by the queue) *)
+Ltac fin2 :=
+  match goal with |- (0 <? ?x) = ?w =>
+    destruct (0 <? x) eqn:?; destruct w eqn:?; boolprop; auto; try lia; try congruence;
+    try solve [ exfalso;
+      repeat match goal with H : ?y <= 0 |- _ => assert (y = 0) by lia; clear H end;
+      forward;
+      repeat match goal with
+      | H : _ /\ _ |- _ => destruct H
+      | H : _ \/ _ |- _ => destruct H
+      end; forward; repeat match goal with H : _ /\ _ |- _ => destruct H end;
+      try congruence; try lia; try discriminate ]
+  end.
